@@ -146,7 +146,7 @@ fn require_observed(rep: &mut Report, keys: &[&str]) {
 }
 
 pub fn run_c14(cfg: &Cfg, rep: &mut Report) {
-    rep.rule("fixpoint exploration of (real polling scanner x history observer) over number bytes {98,99,100,101}, controllers 6, 38, 96, 97 x abstract values, non-contributing representatives, poll, tick (1000 ns), reset; timeouts {0, 2 ticks, infinite}; one channel (quick: 2 values, thorough: 3) and a two-channel product; plus seeded random histories over the full alphabet incl. malformed and mixed registered/non-registered traffic on 1-16 channels with polls and time steps; distinct_nontrivial = explorer states + random histories with at least one report ; explorer runs rotate their abstract values and channels (fixed pair {0,1}, seeded pairs, spec-dictionary pairs such as {0,6}, {0,3}; thorough/release: every 7-bit value) ; repetition (pumping) workloads repeat every cycle of one or two symbols and every documented unit form 300x (unit forms and single symbols 66 000x) from several start states, applying all tail symbols to a copy after each iteration ; a third of the random histories draws number bytes, values and channels from the spec dictionary");
+    rep.rule("fixpoint exploration of (real polling scanner x history observer) over number bytes {98,99,100,101}, controllers 6, 38, 96, 97 x abstract values, non-contributing representatives, poll, tick (1000 ns), reset; timeouts {0, 2 ticks, infinite}; one channel (quick: 2 values, thorough: 3) and a two-channel product; plus seeded random histories over the full alphabet incl. malformed and mixed registered/non-registered traffic on 1-16 channels with polls and time steps; distinct_nontrivial = explorer states + random histories with at least one report ; explorer runs rotate their abstract values and channels (fixed pair {0,1}, seeded pairs, spec-dictionary pairs such as {0,6}, {0,3}; thorough/release: every 7-bit value) ; repetition (pumping) workloads repeat every cycle of one or two symbols and every documented unit form 300x (unit forms and single symbols 66 000x) from several start states, applying all tail symbols to a copy after each iteration ; a third of the random histories draws number bytes, values and channels from the spec dictionary ; polls right after clock steps just past 2^32 ns, 1 s, 2^32 us and 1 h (compound explorer symbols, templates, repetition cycles, random histories); timeouts from 0/1 ns to one year and durations of 2^64 ns and more (oracle: never); every feed also as StructuredShortMessage and as a foreign implementor on copies of the prior state (results and states must agree); the time-shifted feed twin (P5) also compares a very late poll");
     let v2 = [0u8, 1];
     let v3 = [0u8, 1, 127];
     if cfg.as_c18 {
@@ -382,7 +382,7 @@ fn metamorphic(cfg: &Cfg, rep: &mut Report, total: u64) {
 }
 
 pub fn run_c13(cfg: &Cfg, rep: &mut Report) {
-    rep.rule("explorer over feeds, polls and ticks (1 tick = 1000 ns) with timeouts {0, 2 ticks, infinite}, running the timeout templates (unpaired LSB dropped by the first late poll; early poll has no effect; poll exactly at / one ns before the deadline) from every reachable state; online checker P1-P5 on every poll and feed (P5: each feed repeated on a copy of the scanner with the clock advanced by T-1, T, T+1, 10T+7); seeded random histories with time steps T-1, T, T+1; metamorphic epoch-shift and time-scale runs; distinct_nontrivial = explorer states + random histories with a report ; explorer runs rotate their abstract values and channels (fixed pair {0,1}, seeded pairs, spec-dictionary pairs such as {0,6}, {0,3}; thorough/release: every 7-bit value) ; repetition (pumping) workloads repeat every cycle of one or two symbols and every documented unit form 300x (unit forms and single symbols 66 000x) from several start states, applying all tail symbols to a copy after each iteration ; a third of the random histories draws number bytes, values and channels from the spec dictionary");
+    rep.rule("explorer over feeds, polls and ticks (1 tick = 1000 ns) with timeouts {0, 2 ticks, infinite}, running the timeout templates (unpaired LSB dropped by the first late poll; early poll has no effect; poll exactly at / one ns before the deadline) from every reachable state; online checker P1-P5 on every poll and feed (P5: each feed repeated on a copy of the scanner with the clock advanced by T-1, T, T+1, 10T+7); seeded random histories with time steps T-1, T, T+1; metamorphic epoch-shift and time-scale runs; distinct_nontrivial = explorer states + random histories with a report ; explorer runs rotate their abstract values and channels (fixed pair {0,1}, seeded pairs, spec-dictionary pairs such as {0,6}, {0,3}; thorough/release: every 7-bit value) ; repetition (pumping) workloads repeat every cycle of one or two symbols and every documented unit form 300x (unit forms and single symbols 66 000x) from several start states, applying all tail symbols to a copy after each iteration ; a third of the random histories draws number bytes, values and channels from the spec dictionary ; polls right after clock steps just past 2^32 ns, 1 s, 2^32 us and 1 h (compound explorer symbols, templates, repetition cycles, random histories); timeouts from 0/1 ns to one year and durations of 2^64 ns and more (oracle: never); every feed also as StructuredShortMessage and as a foreign implementor on copies of the prior state (results and states must agree); the time-shifted feed twin (P5) also compares a very late poll ; a real-clock smoke run (hooks off) incl. busy-polling across 20 us / 300 us / 2 ms deadlines and huge timeouts");
     let v2 = [0u8, 1];
     let timeouts: Vec<u64> = if cfg.as_c18 { vec![T2] } else { vec![0, T2, T_INF] };
     for &t in &timeouts {
@@ -966,7 +966,7 @@ impl Sys for PollCorollary {
 }
 
 pub fn run_c12(cfg: &Cfg, rep: &mut Report) {
-    rep.rule("sentences of the documented grammar S ::= (Sel U*)*, U ::= M | M L | L+ (after a 14-bit value) | L M (directly after Sel) | Inc | Dec: all unit sequences up to 3 units (thorough: 4-5) after each of up to 2 number selections (either byte order, registered and non-registered), x decoration patterns {none, late poll at every unit boundary, early polls + small ticks, big clock steps inside pairs + non-contributing messages, random mix} x timeouts {0, 2000 ns} x seeded junk prefixes; seeded random long sentences on up to 16 interleaved channels; encoder corollary (every message kind x both byte orders, then late poll) from every explorer-reachable prior state; every feed/poll result is compared with the transducer's intended output; distinct_nontrivial = distinct (unit sequence, decoration, timeout) sentences with at least one intended report + explorer states ; long repetitions (40x, thorough 300x) of every unit pattern under every decoration ; corollary explorers rotate abstract values/channels and include spec-dictionary pairs");
+    rep.rule("sentences of the documented grammar S ::= (Sel U*)*, U ::= M | M L | L+ (after a 14-bit value) | L M (directly after Sel) | Inc | Dec: all unit sequences up to 3 units (thorough: 4-5) after each of up to 2 number selections (either byte order, registered and non-registered), x decoration patterns {none, late poll at every unit boundary, early polls + small ticks, big clock steps inside pairs + non-contributing messages, random mix} x timeouts {0, 2000 ns} x seeded junk prefixes; seeded random long sentences on up to 16 interleaved channels; encoder corollary (every message kind x both byte orders, then late poll) from every explorer-reachable prior state; every feed/poll result is compared with the transducer's intended output; distinct_nontrivial = distinct (unit sequence, decoration, timeout) sentences with at least one intended report + explorer states ; long repetitions (40x, thorough 300x) of every unit pattern under every decoration ; corollary explorers rotate abstract values/channels and include spec-dictionary pairs ; timeouts one year and 1.5 s with polls exactly one nanosecond before the deadline; late polls after clock steps past 2^32 ns / 1 s / 2^32 us / 1 h");
     let max_units = cfg.size(2, 3, if cfg.release { 5 } else { 4 }) as usize;
     let seqs = unit_sequences(max_units);
     let seqs2 = unit_sequences(cfg.size(1, 2, 3) as usize);
